@@ -18,6 +18,10 @@ def main():
     ap.add_argument("--unit", default=None, help="fnmatch pattern restricting the units (debugging; evidence is still written)")
     ap.add_argument("--nproc", type=int, default=None)
     a = ap.parse_args()
+    if a.prop == "selftest":
+        import subprocess
+
+        return subprocess.call([os.path.join(VERIF, "selftest", "run.sh")] + ([a.unit] if a.unit else []))
     seed = int(os.environ.get("VERIF_SEED", "0") or 0)
     from pyvc import runner
 
